@@ -20,6 +20,7 @@ static sexp copy_opcode (sexp ctx, struct sexp_opcode_struct *op) {
 }
 
 sexp sexp_init_library (sexp ctx, sexp self, sexp_sint_t n, sexp env, const char* version, const sexp_abi_identifier_t abi) {
+  const char *raw_name;
   sexp_gc_var2(name, op);
   if (!(sexp_version_compatible(ctx, version, sexp_version)
         && sexp_abi_compatible(ctx, abi, SEXP_ABI_IDENTIFIER)))
@@ -27,7 +28,10 @@ sexp sexp_init_library (sexp ctx, sexp self, sexp_sint_t n, sexp env, const char
   sexp_gc_preserve2(ctx, name, op);
   sexp_define_foreign(ctx, env, "num-parameters", 0, sexp_num_parameters);
   op = copy_opcode(ctx, &local_ref_op);
-  sexp_opcode_name(op) = sexp_c_string(ctx, (char*)sexp_opcode_name(op), -1);
+  /* the name is a C string in the static template: not in a traced slot while allocating */
+  raw_name = (const char*)sexp_opcode_name(op);
+  sexp_opcode_name(op) = SEXP_FALSE;
+  sexp_opcode_name(op) = sexp_c_string(ctx, raw_name, -1);
   name = sexp_string_to_symbol(ctx, sexp_opcode_name(op));
   sexp_env_define(ctx, env, name, op);
   sexp_gc_release2(ctx);
